@@ -404,7 +404,7 @@ pub fn check_c02(ctx: &Ctx, case: &CertCase<'_>, cert: &Certificate, input: &Cer
 	}
 }
 
-fn ku_lenient(value: &[u8]) -> Option<u16> {
+pub fn ku_lenient(value: &[u8]) -> Option<u16> {
 	let t = derx::parse_exact(value, false).ok()?;
 	if !t.is_univ(derx::BIT_STRING) || t.content.is_empty() {
 		return None;
